@@ -14,4 +14,5 @@ var ndHarnesses = map[string]func(){
 	"Harness_C04_K4":       Harness_C04_K4,
 	"Harness_C10_Binding":  Harness_C10_Binding,
 	"Harness_C06_Export":   Harness_C06_Export,
+	"Harness_C06_Chain":    Harness_C06_Chain,
 }
